@@ -597,6 +597,29 @@ func C01(tier string) int {
 			}
 		}
 	}
+	// F3e: long lists (5, 8, 16, 17 and 33 elements) of IRIs, of embedded objects and of both in turn, in every
+	// list-carrying property of the family above and in to / cc / name
+	for _, lc := range append(append([]struct{ host, prop string }(nil), listCarriers...), struct{ host, prop string }{"Note", "to"}, struct{ host, prop string }{"Create", "cc"}, struct{ host, prop string }{"Note", "name"}) {
+		for _, n := range []int{5, 8, 16, 17, 33} {
+			for _, kind := range []string{"iri", "embedded", "alternating"} {
+				l := L{}
+				for i := 0; i < n; i++ {
+					switch {
+					case lc.prop == "name":
+						l = append(l, fmt.Sprintf("name %d", i))
+					case kind == "iri" || (kind == "alternating" && i%2 == 0):
+						l = append(l, fmt.Sprintf("https://x.example/long/%d", i))
+					default:
+						l = append(l, M{"type": "Note", "id": fmt.Sprintf("https://x.example/long/%d", i), "name": fmt.Sprintf("el%d", i)})
+					}
+				}
+				if lc.prop == "name" && kind != "iri" {
+					continue
+				}
+				add("canonical|long-list", withContext(o, M{"type": lc.host, "id": "https://x.example/doc", lc.prop: l}, "ActivityStreams/"+lc.host), true)
+			}
+		}
+	}
 	// F3b: canonical documents whose own @context names MORE than the document uses (every shipped
 	// vocabulary; an unknown extension URL; an inline term map): the re-encoded @context names exactly
 	// the vocabularies used
@@ -715,7 +738,7 @@ func C01(tier string) int {
 	nc("empty-string-members", note("content", "", "summary", ""))
 
 	// ---- run ----
-	res.Rule = fmt.Sprintf("documents derived from the ontology grammar: every (type, property, kind in range closure + IRI) x {scalar, list of 2, mixed list <=4, language map} (canonical), nesting depth 2-3 through object/attachment/tag/inReplyTo for every type, unknown members from a 10-value alphabet under 3 key spellings at top level and nested, every (type, name of a property the type does not have) as a member (top level; every 16th nested), lists of 2-3 same-kind elements of which exactly one (each position) nests a value of another vocabulary, IRIs of 12 less usual URL-normal shapes (port, IPv6 literal, query, fragment, userinfo, percent-escape, punycode, no path, dot segments, empty query) as the value of every property and as ids, every list of 2-4 elements over one element per vocabulary (x 5 carrying properties), every type under an @context that names more than it uses (all shipped vocabularies / an unknown extension URL / an inline term map), and %d accepted-but-non-canonical shapes; %d documents in total; oracle: (a) canonical: encode(decode(d)) JSON-equal to d with @context compared as a set that must equal the vocabularies the oracle says the document uses; (b) no member lost except nested @context / null for a known property, natural-language members modulo the Map spelling; (c) a second round trip changes nothing unless the document holds such a null or an array directly inside an array; non-trivial = documents the decoder accepted, distinct by (family, type, member names)", 22+6*10+len(o.Vocabs), len(cases))
+	res.Rule = fmt.Sprintf("documents derived from the ontology grammar: every (type, property, kind in range closure + IRI) x {scalar, list of 2, mixed list <=4, language map} (canonical), nesting depth 2-3 through object/attachment/tag/inReplyTo for every type, unknown members from a 10-value alphabet under 3 key spellings at top level and nested, every (type, name of a property the type does not have) as a member (top level; every 16th nested), lists of 2-3 same-kind elements of which exactly one (each position) nests a value of another vocabulary, IRIs of 12 less usual URL-normal shapes (port, IPv6 literal, query, fragment, userinfo, percent-escape, punycode, no path, dot segments, empty query) as the value of every property and as ids, lists of 5, 8, 16, 17 and 33 IRIs / embedded objects / both in turn in 8 properties, every list of 2-4 elements over one element per vocabulary (x 5 carrying properties), every type under an @context that names more than it uses (all shipped vocabularies / an unknown extension URL / an inline term map), and %d accepted-but-non-canonical shapes; %d documents in total; oracle: (a) canonical: encode(decode(d)) JSON-equal to d with @context compared as a set that must equal the vocabularies the oracle says the document uses; (b) no member lost except nested @context / null for a known property, natural-language members modulo the Map spelling; (c) a second round trip changes nothing unless the document holds such a null or an array directly inside an array; non-trivial = documents the decoder accepted, distinct by (family, type, member names)", 22+6*10+len(o.Vocabs), len(cases))
 	var mu sync.Mutex
 	chunk := 4000
 	par((len(cases)+chunk-1)/chunk, func(ci int) {
